@@ -291,6 +291,71 @@ impl C13 {
     }
 }
 
+/// Small-scope enumeration of one shape the random histories reach only rarely: a reliable message with an id just below a varint
+/// width boundary (64, 16384, 2^30) stays unacknowledged because its packet was lost, the messages after it are acknowledged (so the
+/// sender's unacknowledged set has a hole), and in the tick in which the old message is due again a burst of tiny messages with ids
+/// above the boundary is queued on the same channel. Every packet must fit and serialise; afterwards everything is obtained.
+fn hole_at_width_boundary(index: u64, ctx: &mut Ctx) -> Outcome {
+    let boundary = [64u64, 16384, 1 << 30][(index % 3) as usize];
+    // how far below the boundary the lost message sits; the messages between it and the boundary are acknowledged
+    let gap = [1u64, 2, 60, 400, 1500][((index / 3) % 5) as usize].min(boundary - 1);
+    let burst = [50usize, 130, 300, 1200][((index / 15) % 4) as usize];
+    let tiny = [0usize, 1, 10][((index / 60) % 3) as usize];
+    let kind = [Kind::Ordered, Kind::Unordered][((index / 180) % 2) as usize];
+    ctx.op(&("hole_at_width_boundary", boundary, gap, burst, tiny, kind));
+    let chan = vec![Chan { id: 0, kind, max_mem: 5_000_000, resend_ms: 100 }];
+    let cfg = WorldCfg { bytes_per_tick: 60_000, s2c: vec![], c2s: chan, n_clients: 1, id_scheme: 0 };
+    let mut w = World::new(cfg, Oracles { sizes: true, content: true, ..Default::default() });
+    w.prompt_drain = true;
+    let d = Dir { client: 0, to_client: false };
+    let base = boundary - gap;
+    w.dirs[d.idx()].chans.get_mut(&0).unwrap().id_base = base;
+    w.clients[0].verif_set_next_send_message_id(0, base);
+    w.server.verif_connection_mut(client_id(0)).unwrap().verif_set_next_receive_message_id(0, base);
+    // the message below the boundary: its packet is lost
+    w.send(d, 0, 10, true, 0)?;
+    w.advance(20);
+    let _lost = w.flush(d)?;
+    // the messages up to the boundary and five above it arrive and are acknowledged
+    let between = gap as usize - 1 + 5;
+    for _ in 0..between {
+        w.send(d, 0, 10, true, 0)?;
+    }
+    w.advance(20);
+    for dir in [d, d.rev()] {
+        for pid in w.flush(dir)? {
+            w.enqueue(pid, 0);
+        }
+        w.deliver_due(dir, None)?;
+        w.drain_all(dir)?;
+    }
+    // the burst, queued in the tick in which the old messages are due again
+    for _ in 0..burst {
+        w.send(d, 0, tiny, true, 0)?;
+    }
+    for tick in 0..40 {
+        w.advance(100);
+        for dir in [d, d.rev()] {
+            for pid in w.flush(dir)? {
+                w.enqueue(pid, 0);
+            }
+            w.deliver_due(dir, None)?;
+            w.drain_all(dir)?;
+        }
+        if let Some(r) = w.sender_reason(d).or(w.receiver_reason(d)) {
+            return Err(Fail::new("boundary_burst_disconnected", format!("the connection was disconnected ({r:?}) on a loss-free network while a burst of {burst} messages of {tiny} bytes followed an unacknowledged message below id {boundary} (tick {tick})")));
+        }
+    }
+    let total = 1 + between + burst;
+    let got = w.dirs[d.idx()].chans[&0].msgs.iter().filter(|m| m.obtained == 1).count();
+    if got != total {
+        return Err(Fail::new("boundary_burst_incomplete", format!("{got} of {total} reliable messages obtained exactly once 40 loss-free ticks after the burst around id {boundary}")));
+    }
+    ctx.label("hole_at_width_boundary");
+    ctx.nontrivial = true;
+    Ok(())
+}
+
 impl Property for C13 {
     fn id(&self) -> &'static str {
         "C13"
@@ -299,7 +364,7 @@ impl Property for C13 {
         "exploration"
     }
     fn rule(&self) -> String {
-        "Cases: (a) renet pair with counter presets (hooks) on packet sequences, reliable message ids and unreliable sliced ids at varint width boundaries (62/63, 16382/16383, 2^30-2/2^30-1, 2^40, 2^62-2000000), message lengths 1185-1201 and 1201-1320 (a little above one slice, around what would still fit one carrier) mixed with bursts of 50-2000 messages of 0-8 bytes in one tick, sliced messages, and receive patterns that maximise the ack list (every other packet lost, descending arrival, sequence jumps of 2^14 / 2^31 between packets), under the generic fault driver; every renet packet emitted is also passed through generate_payload_packet of a connected netcode pair whose sequences are preset to every byte width; (b) netcode pair: payload lengths 0..1300, 1301, 1400, sequences of every width, keep-alive / disconnect / handshake datagrams. Oracles: every get_packets_to_send element <= 1300 bytes, no PacketSerialization disconnect, generate_payload_packet never refuses a renet packet nor a payload <= 1300 and refuses larger ones, every netcode datagram <= 1400. Non-trivial: an 8-byte varint id or sequence together with a packet filled by >= 100 tiny messages, or an ack packet with >= 60 ranges, or a payload at the 1300-byte limit. Distinct = hash of the decoded operation trace.".into()
+        "Cases: (a) renet pair with counter presets (hooks) on packet sequences, reliable message ids and unreliable sliced ids at varint width boundaries (62/63, 16382/16383, 2^30-2/2^30-1, 2^40, 2^62-2000000), message lengths 1185-1201 and 1201-1320 (a little above one slice, around what would still fit one carrier) mixed with bursts of 50-2000 messages of 0-8 bytes in one tick, sliced messages, and receive patterns that maximise the ack list (every other packet lost, descending arrival, sequence jumps of 2^14 / 2^31 between packets), under the generic fault driver; every renet packet emitted is also passed through generate_payload_packet of a connected netcode pair whose sequences are preset to every byte width; (b) netcode pair: payload lengths 0..1300, 1301, 1400, sequences of every width, keep-alive / disconnect / handshake datagrams. Enumerated besides (360 histories): a reliable message 1-1500 ids below id 64 / 16384 / 2^30 stays unacknowledged while the later ones up to and beyond the boundary are acknowledged, then 50-1200 messages of 0-10 bytes with ids above the boundary are queued in the tick in which it is due again. Oracles: every get_packets_to_send element <= 1300 bytes, no PacketSerialization disconnect, generate_payload_packet never refuses a renet packet nor a payload <= 1300 and refuses larger ones, every netcode datagram <= 1400. Non-trivial: an 8-byte varint id or sequence together with a packet filled by >= 100 tiny messages, or an ack packet with >= 60 ranges, or a payload at the 1300-byte limit. Distinct = hash of the decoded operation trace.".into()
     }
     fn assumptions(&self) -> Vec<String> {
         vec!["counter presets stand for long-running sessions (2^62 packets cannot be sent in a test); values stay below 2^62-1, the varint limit".into()]
@@ -308,7 +373,13 @@ impl Property for C13 {
         PbtCfg { cases: tier.pick(2_500, 10_000), max_len: tier.pick(1500, 3000), shrink_ms: 120_000 }
     }
     fn required_labels(&self) -> Vec<&'static str> {
-        vec!["wide_varint", "full_packet_tiny_messages", "ack_60_ranges", "renet_packet_near_limit", "payload_at_limit", "netcode_case", "gap_burst", "descending_arrival", "tiny_burst", "just_above_one_slice"]
+        vec!["wide_varint", "full_packet_tiny_messages", "ack_60_ranges", "renet_packet_near_limit", "payload_at_limit", "netcode_case", "gap_burst", "descending_arrival", "tiny_burst", "just_above_one_slice", "hole_at_width_boundary"]
+    }
+    fn enums(&self, _tier: Tier) -> Vec<(&'static str, u64)> {
+        vec![("hole_at_width_boundary", 360)]
+    }
+    fn run_enum(&self, _name: &str, index: u64, ctx: &mut Ctx) -> Outcome {
+        hole_at_width_boundary(index, ctx)
     }
     fn run_choices(&self, ctx: &mut Ctx) -> Outcome {
         if ctx.src.chance(50) {
